@@ -22,6 +22,9 @@ type c05ctx struct {
 	memo  map[ssa.Value]int      // 1 busy, 2 nonneg, 3 unknown
 	why   map[ssa.Value]string
 	door  map[string]bool // validated-at-the-door message fields
+	// bind: parameters of a helper currently being evaluated for ONE call, bound to that call's arguments
+	// (small pure helpers such as int64ToDec are shared by callers with different sign facts)
+	bind []map[*ssa.Parameter]ssa.Value
 }
 
 var nonNegPreserving = []string{
@@ -46,8 +49,23 @@ func isCoinType(t types.Type) bool {
 
 // nonNeg: is the integer/decimal value v non-negative in the small sign domain?
 func (c *c05ctx) nonNeg(v ssa.Value, depth int) (bool, string) {
-	if depth > 14 {
+	if depth > 48 {
 		return false, "depth"
+	}
+	if len(c.bind) > 0 {
+		// inside a helper evaluated for one particular call: the result depends on that call, not memoised
+		if prm, isParam := v.(*ssa.Parameter); isParam {
+			for i := len(c.bind) - 1; i >= 0; i-- {
+				if a, ok := c.bind[i][prm]; ok {
+					saved := c.bind
+					c.bind = c.bind[:i]
+					ok2, why := c.nonNeg(a, depth+1)
+					c.bind = saved
+					return ok2, "argument of this call: " + why
+				}
+			}
+		}
+		return c.nonNeg1(v, depth)
 	}
 	switch c.memo[v] {
 	case 1:
@@ -149,16 +167,35 @@ func (c *c05ctx) nonNeg1(v ssa.Value, depth int) (bool, string) {
 		}
 		if callees := p.Callees(x); len(callees) == 1 && callees[0].Blocks != nil {
 			cal := callees[0]
+			// a small loop-free helper is evaluated for THIS call (parameters bound to the arguments here)
+			small := len(cal.Blocks) <= 3 && !x.Call.IsInvoke()
+			if small {
+				b := map[*ssa.Parameter]ssa.Value{}
+				for i, prm := range cal.Params {
+					if i < len(x.Call.Args) {
+						b[prm] = x.Call.Args[i]
+					}
+				}
+				c.bind = append(c.bind, b)
+			}
 			n := 0
+			res, why := true, ""
 			for _, b := range cal.Blocks {
 				ret, ok := b.Instrs[len(b.Instrs)-1].(*ssa.Return)
 				if !ok || len(ret.Results) != 1 {
 					continue
 				}
 				n++
-				if ok2, why := c.nonNeg(ret.Results[0], depth+1); !ok2 {
-					return false, "return of " + cal.Name() + ": " + why
+				if ok2, w := c.nonNeg(ret.Results[0], depth+1); !ok2 {
+					res, why = false, "return of "+cal.Name()+": "+w
+					break
 				}
+			}
+			if small {
+				c.bind = c.bind[:len(c.bind)-1]
+			}
+			if !res {
+				return false, why
 			}
 			if n > 0 {
 				return true, "every return of " + cal.Name() + " non-negative"
@@ -635,10 +672,9 @@ func c05(r *core.Run) {
 							dp := p.ProvAt(d, "", x)
 							isInterval := hasPathSuffix(".End")(dp) && hasPathSuffix(".Start")(dp) && dp.HasExt("time.Time).Sub")
 							if isInterval {
-								eff := &core.Effect{Instr: x}
-								u1 := p.FindUnguarded(fn, []*core.Effect{eff}, timeGuard(p, hasPathSuffix(".End"), hasPathSuffix(".Start"), ">=", ">"), true)
-								u2 := p.FindUnguarded(fn, []*core.Effect{eff}, timeGuard(p, hasPathSuffix(".End"), hasPathSuffix(".Start"), "!=", ">", "<"), true)
-								if len(u1) == 0 && len(u2) == 0 {
+								g1 := timeGuard(p, hasPathSuffix(".End"), hasPathSuffix(".Start"), ">=", ">")
+								g2 := timeGuard(p, hasPathSuffix(".End"), hasPathSuffix(".Start"), "!=", ">", "<")
+								if guardedHereOrAtCallSites(p, fn, x, g1) && guardedHereOrAtCallSites(p, fn, x, g2) {
 									ok, why = true, "exception (reviewed): divisor = End − Start in microseconds, reached only behind End > Start (Before=false, Equal=false); gauges span whole days"
 								}
 							}
